@@ -68,6 +68,7 @@ CHECKS["C12"] = dict(
   text="Design check: for every site of the site table and every permutation of 4 keys the emitted sequence is schedule independent (it is not for the pinned tree's three ranged sites, cfg v0). Code: a map-fat spec with >= 4 entries in every map-typed construct, the kitchen and carrier specs and a seeded sample of matrix cells are each generated 24 (thorough 96) times across separate processes; every run of one input must give the same result (or the same error text) and identical sha256 per file. Schedules of Go's map iteration are sampled, not enumerated (exploration).",
   note="With k >= 4 entries and a first-key-wins or whole-order site, a pair of runs differs with probability >= 3/4, so 24 runs miss an influencing site with probability <= 4^-23. The site table is a model; unlisted ranged sites would still be caught by the hash comparison if the corpus exercises them.")
 
+STREAM_NOTE = " Bodies reach the generated code through a reader that replays, scaled to the body, every complete behaviour of the source of spec/Stream.tla (short / empty reads, end announced with or after the last bytes, failure after Close): 162 behaviours (thorough 1458), design-checked by MC_Stream (Complete, NoUseAfterClose, Conserved, Terminates)."
 CODEC_NOTE = "Besides the enumerated universe of MC_Codec every run takes 150 (thorough: 1200) seeded random schema compositions nested to depth 3 over all constructs (randschema.go). Values are compared by projection (nil = empty collections, times as instants). JSON leaves are tokenised by strconv / time.Parse (trusted). Struct fields are bound to properties by normalised name. Schemas whose generated code does not build are excluded by the pre-flight and counted (C01 owns them). One open finding (named date-time component) carries a TLA+ selector."
 CHECKS["C06"] = dict(
   level="model_checking", design="§4 C06, spec/Codec.tla (VEq, NoDupDeep, writer machine), spec/MC_Codec.tla, spec/Trace_Codec.tla",
@@ -83,19 +84,19 @@ CHECKS["C08"] = dict(
   level="model_checking", design="§4 C08, §17.6, spec/Codec.tla (JEquiv), spec/Trace_Codec.tla, spec/Reader.tla, spec/MC_Reader.tla, spec/Trace_Reader.tla",
   technique="documents and single-fault mutants generated from the schema (not from goag's encoder); real UnmarshalJSON + re-encoding; losslessness (Codec.JEquiv) and strictness judged by TLC (Trace_Codec); plus the reader walk: the step-level TLA+ model of unmarshalJSONInnerBody (Reader.tla) is model-checked against its Prop layer and every object of its universe x documents over its keys is replayed on the real generated code and judged by TLC (Trace_Reader)",
   text="For every building schema of the C06 universe: seeded valid documents (optional subsets, null where allowed, additional properties, undeclared extras on silent schemas, discriminator set to the variant's tag) must decode and re-encode to an equivalent document (key order ignored, extras kept under explicit additionalProperties); every mutant that drops one required key or swaps one declared property to another JSON type must be rejected with an error naming the property. Reader walk: for every object of MC_Reader's universe (own properties required / optional / nullable, allOf members inline / embedded / nested, typed additionalProperties) and documents giving every key the status absent / value / null / wrong type, the real decoder's outcome (accepted or not, the key the error names, which fields hold the value / null / the zero value, which keys land in AdditionalProperties) must equal what the reader machine computes.",
-  note=CODEC_NOTE + " null for a non-nullable property is not judged by the Prop layer (C08 is silent); the reader machine records what the code does with it (zero value) and the walk checks that too. Type swaps are between distinct JSON types only.")
+  note=CODEC_NOTE + " null for a non-nullable property is not judged by the Prop layer (C08 is silent); the reader machine records what the code does with it (zero value) and the walk checks that too. Type swaps are between distinct JSON types only." + STREAM_NOTE)
 
 WIRE_NOTE = "Domain restrictions of DESIGN §4 C09 / §11 (path values non-empty and '/'-free, arrays non-empty, header values visible ASCII, times as instants, finite floats). The client is NewClient(origin + normalised base path, HTTPClient); the HTTPClient records the wire request and serves a fresh server-side copy through API.ServeHTTP in-process. Operations whose generated code does not build are excluded by the pre-flight and counted. Lexical spaces by strconv / time.Parse; TLC and the reflective driver are trusted."
 CHECKS["C09"] = dict(
   level="model_checking", design="§4 C09, §17.7, spec/Wire.tla (WireValid), spec/Params.tla, spec/Codec.tla, spec/Trace_Wire.tla, spec/Client.tla, spec/MC_Client.tla, spec/Trace_Client.tla",
   technique="calls through the real generated Client against the real generated server; the wire request validated by a TLA+ request validator (Wire.WireValid = Router.Match + Params.Failing + Codec.Valid) and parsed = sent judged by TLC (Trace_Wire)",
   text="Seeded operations (typed path parameters, query parameters incl. arrays, header parameters, JSON / raw / no body; rotating base-path forms) are called with seeded boundary values: reserved URL and header characters, extreme numbers, zoned times, empty optional strings, multi-element arrays. TLC checks that the request on the wire is valid for the operation (method, template match beneath the base path, required parameters present, every lexeme in its type's space, no undeclared query keys, body valid for its schema) and that the handler's Parse() value equals the value sent, field by field, unset staying unset. Client walk: the composed client / server machines of Client.tla are model-checked (round trip inside the domain, every domain restriction necessary); all 168 operation shapes of that model are generated and called with values of every kind inside and outside the domain; inside the domain the round trip must hold, outside it the outcome is compared with the model (drift only). The same calls also go through API.LocalClient().",
-  note=WIRE_NOTE)
+  note=WIRE_NOTE + STREAM_NOTE)
 CHECKS["C10"] = dict(
   level="model_checking", design="§4 C10, spec/Wire.tla (ClientOutcome), spec/MC_Wire.tla, spec/Trace_Wire.tla",
   technique="TLA+ model of the client's status dispatch checked by TLC (MC_Wire); seeded response values returned by the real handler and reconstructed by the real client; equality and the default/error rule judged by TLC (Trace_Wire)",
   text="For every operation of the response matrix (1-4 responses from {200,201,404,default}, inline / component / alias, typed required and optional headers incl. arrays, JSON / raw / no body) the handler returns a seeded value of a seeded documented response type; the client's return value must be of the same type with equal code, headers and body. Every undocumented status among {200,201,202,302,404,418,500} reaches the client through a real default response carrying that code (must come back as the default type with that code) or, when no default is declared, as an injected response (must be an error).",
-  note=WIRE_NOTE + " Default status codes are drawn from 200..499.")
+  note=WIRE_NOTE + " Default status codes are drawn from 200..499." + STREAM_NOTE)
 CHECKS["C02"] = dict(
   level="model_checking", design="§4 C02, spec/Wire.tla (WriteOK, Documented), spec/Trace_Wire.tla",
   technique="static half: reflection over every package-level named type against each operation's response interface; dynamic half: what the real Write put on the wire (status, Content-Type, header names and values, body) judged by TLC (Trace_Wire.ServerDone with Wire.WriteOK and Codec.Valid)",
